@@ -1,4 +1,4 @@
-//! Kani harnesses over /repo/weechess-core (DESIGN.md §3, §4). One cargo feature per property so a
+//! Kani harnesses over /repo/weechess-engine (and -core) (DESIGN.md §3, §4). One cargo feature per property so a
 //! check compiles and code-generates only its own harnesses.
 //!
 //! Built two ways:
@@ -44,7 +44,6 @@ macro_rules! proof_geo {
 
 #[path = "../../common/geo.rs"]
 pub mod geo;
-
 #[path = "../../common/rules.rs"]
 pub mod rules;
 #[cfg(any(kani, replay))]
@@ -54,21 +53,9 @@ pub mod sym;
 #[path = "../../common/stubs.rs"]
 pub mod stubs;
 
-#[cfg(all(any(kani, replay), feature = "c01"))]
-mod c01;
-#[cfg(all(any(kani, replay), feature = "c02"))]
-mod c02;
-#[cfg(all(any(kani, replay), feature = "c08"))]
-mod c08;
-#[cfg(all(any(kani, replay), feature = "c09"))]
-mod c09;
-#[cfg(all(any(kani, replay), feature = "c09"))]
-mod gen_tables;
-#[cfg(all(any(kani, replay), feature = "c10"))]
-mod c10;
-#[cfg(all(any(kani, replay), feature = "c12"))]
-mod c12;
-#[cfg(all(any(kani, replay), feature = "c14"))]
-mod c14;
-#[cfg(all(any(kani, replay), feature = "c20"))]
-mod c20;
+#[cfg(all(any(kani, replay), feature = "c05"))]
+mod c05;
+#[cfg(all(any(kani, replay), feature = "c13"))]
+mod c13;
+#[cfg(all(any(kani, replay), feature = "c15"))]
+mod c15;
